@@ -463,7 +463,19 @@ func opDec(t []string) string {
 	if strings.HasPrefix(res, "err:") {
 		hx.St.Inc("dec.err." + res[4:])
 	}
-	hx.St.Inc("dec.max." + t[2])
+	switch {
+	case max == math.MaxInt32:
+		hx.St.Inc("dec.max.default")
+	case max <= 1000:
+		hx.St.Inc("dec.max.1-1000")
+	case max <= 65537:
+		hx.St.Inc("dec.max.1001-65537")
+	default:
+		hx.St.Inc("dec.max.65538-2MiB")
+	}
+	if len(t) == 5 {
+		hx.St.Inc("dec.wellformed-with-expected-data")
+	}
 	return res + " " + oracle
 }
 
